@@ -48,11 +48,16 @@ Py2(st) ==
 \* ------------------------------------------------------------------ ptera
 \* `v = frame.interact('v', None, ann, v, True)` right after Python's own binding of v to src
 After(I, v, src) == IF Instr(I, v) THEN << <<"interact", v, "none", src>>, <<"rebind", v, src>> >> ELSE <<>>
-\* generate_interactions(target): names and tuples of them; anything else raises NotImplementedError
+\* generate_interactions(target): names, tuples / lists of targets, a starred name; stores into objects (attribute,
+\* subscript) are not variable bindings.  LoopTargets = "names-only" is the tree before fix d4bbee3: anything but
+\* names and tuples of names raised NotImplementedError and the whole function could not be instrumented.
+CONSTANT LoopTargetsSupported
 RECURSIVE GenI(_, _, _)
 GenI(t, src, I) ==
   CASE t.t = "name" -> After(I, t.v, src)
     [] t.t = "tuple" -> Cat(LAMBDA i : GenI(t.elts[i], Append(src, IF t.elts[i].t = "star" THEN "rest" ELSE ToString(EltIx(t, i))), I), Len(t.elts))
+    [] t.t = "star" /\ LoopTargetsSupported -> After(I, t.v, src)
+    [] t.t \in {"attr", "sub"} /\ LoopTargetsSupported -> <<>>
     [] OTHER -> << <<"notimplemented">> >>
 NotImpl(acts) == \E i \in DOMAIN acts : acts[i][1] = "notimplemented"
 X2(st, I) ==
